@@ -9,6 +9,7 @@ import (
 	"fmt"
 	"testing"
 
+	"github.com/tjfoc/gmsm/gmtls"
 	"github.com/tjfoc/gmsm/sm4"
 	"pgregory.net/rapid"
 
@@ -24,7 +25,7 @@ var R = hx.NewRecorder("C12", "cases = (key, IV of length 1..64, AAD, plaintext,
 	"non-trivial = plaintext or AAD non-empty; distinct by hash of (key,iv,aad,pt)")
 
 func TestMain(m *testing.M) {
-	R.Require("len>4KiB", "iv!=12", "iv==12", "iv_ff", "ctr_wrap", "pt%16!=0", "pt==0", "aad>16", "tightcap", "bitflip_iv", "bitflip_aad", "bitflip_ct", "bitflip_tag")
+	R.Require("len>4KiB", "iv!=12", "iv==12", "iv_ff", "ctr_wrap", "pt%16!=0", "pt==0", "aad>16", "tightcap", "bitflip_iv", "bitflip_aad", "bitflip_ct", "bitflip_tag", "suite_table_aead:e053", "suite_table_aead:e051")
 	hx.Main(m, R)
 }
 
@@ -321,6 +322,52 @@ func TestC12_BitFlips(t *testing.T) {
 			t.Fatalf("key bit change not detected")
 		}
 	})
+}
+
+// "... the same values the TLS stack's SM4-GCM cipher suites compute": the record AEAD that the GM/T 0024 suite table
+// assigns to each GCM suite (ECC and ECDHE; hook), keyed like the record layer keys it, seals to exactly GCM-SM4 of
+// (implicit nonce || explicit nonce) and opens what the reference sealed; the CBC suites have no AEAD.
+func TestC12_SuiteTableAEAD(t *testing.T) {
+	hx.Check(t, hx.N(300, 5000), func(t *rapid.T) {
+		id := rapid.SampledFrom([]uint16{0xe053, 0xe051}).Draw(t, "suite")
+		key, fixed, explicit := gen.BytesN(16).Draw(t, "key"), gen.BytesN(4).Draw(t, "implicit"), gen.BytesN(8).Draw(t, "explicit")
+		aad := gen.BytesN(13).Draw(t, "aad")
+		pt := gen.Bytes(gen.LenAround(16, 300)).Draw(t, "pt")
+		aead, keyLen, macLen, ivLen, known := gmtls.VerifGMSuiteRecordAEAD(id, key, fixed)
+		if !known || aead == nil || keyLen != 16 || macLen != 0 || ivLen != 4 {
+			t.Fatalf("suite %04x: table entry known=%v aead=%v keyLen=%d macLen=%d ivLen=%d, want an AEAD with 16/0/4", id, known, aead != nil, keyLen, macLen, ivLen)
+		}
+		if aead.NonceSize() != 8 || aead.Overhead() != 16 {
+			t.Fatalf("suite %04x: explicit nonce %d bytes, overhead %d, want 8 and 16", id, aead.NonceSize(), aead.Overhead())
+		}
+		iv := append(append([]byte{}, fixed...), explicit...)
+		wct, wtag := rgcm.Seal(rsm4.Must(key), iv, aad, pt)
+		want := append(append([]byte{}, wct...), wtag...)
+		var got []byte
+		if pn := hx.Try(func() { got = aead.Seal(nil, explicit, pt, aad) }); pn != nil {
+			t.Fatalf("suite %04x: Seal panicked: %v", id, pn.Val)
+		}
+		if !bytes.Equal(got, want) {
+			t.Fatalf("suite %04x: the record AEAD of the suite table is not GCM over SM4: sealed %x, GCM-SM4 gives %x", id, got, want)
+		}
+		back, err := aead.Open(nil, explicit, want, aad)
+		if err != nil || !bytes.Equal(back, pt) {
+			t.Fatalf("suite %04x: the record AEAD does not open a GCM-SM4 record: %v", id, err)
+		}
+		if len(want) > 0 {
+			bad := append([]byte{}, want...)
+			bad[rapid.IntRange(0, len(bad)-1).Draw(t, "flip")] ^= 0x20
+			if _, err := aead.Open(nil, explicit, bad, aad); err == nil {
+				t.Fatalf("suite %04x: an altered record opens", id)
+			}
+		}
+		R.Case(true, hx.HashKey("suiteaead", id, key, iv, pt), fmt.Sprintf("suite_table_aead:%04x", id))
+	})
+	for _, id := range []uint16{0xe013, 0xe011} {
+		if aead, keyLen, macLen, ivLen, known := gmtls.VerifGMSuiteRecordAEAD(id, make([]byte, 16), make([]byte, 16)); !known || aead != nil || keyLen != 16 || macLen != 32 || ivLen != 16 {
+			t.Fatalf("CBC suite %04x: table entry known=%v aead=%v keyLen=%d macLen=%d ivLen=%d, want no AEAD and 16/32/16", id, known, aead != nil, keyLen, macLen, ivLen)
+		}
+	}
 }
 
 func TestC12_KeyLen(t *testing.T) {
